@@ -57,6 +57,8 @@ def decompress():
 
             def on_next(i):
                 try:
+                    if len(i) == 0:
+                        return
                     data = decompressor.decompress(i)
                     observer.on_next(data)
                 except Exception as e:
